@@ -26,7 +26,13 @@ struct shell_mspq {
     typedef size_t counter_type;
 #include <tag_value.inc>
 #include <node.inc>
-    struct buffer_type { mutable node m[VX_HCAP]; size_t capacity() const { return VX_HCAP; } node& operator[]( size_t i ) const { return m[i]; } };
+    struct buffer_type { mutable node m[VX_HCAP]; size_t capacity() const { return VX_HCAP; } 
+#ifdef VX_NONFIT
+        node& operator[]( size_t i ) const { return m[ i < VX_HCAP ? i : 0 ]; }      // finding group only: an index outside the array is reported by the ghost (vx_counter_slot); slot 0 is unused by the heap
+#else
+        node& operator[]( size_t i ) const { return m[i]; }
+#endif
+    };
     item_counter m_ItemCounter; mutable lock_type m_Lock; buffer_type m_Heap; stat m_Stat;
     size_t capacity() const { return m_Heap.capacity() - 1; }
 #include <push.inc>
@@ -34,7 +40,7 @@ struct shell_mspq {
 #include <heapify_after_push.inc>
 #include <heapify_after_pop.inc>
 };
-static shell_mspq g_q; static vx_item g_items[8];
+static shell_mspq g_q; static vx_item g_items[VX_HCAP + 3];
 extern "C" {
 const void* w_heap_lock(void) { return &g_q.m_Lock; }
 const void* w_node_lock(size_t i) { return &g_q.m_Heap.m[i].m_Lock; }
